@@ -290,6 +290,52 @@ theorem dpll_correct : ∀ (fuel : Nat) (f : Cnf), WF f → meas f < fuel →
 theorem solve_correct (f : Cnf) (h : WF f) : solve f = true ↔ ∃ σ, cnfTrue σ f = true :=
   dpll_correct _ f h (by unfold meas; omega)
 
+/-! ### entailment through DPLL -/
+
+theorem cnfTrue_negUnits {σ : Asg} {f : Cnf} {c : Clause} (hc : ∀ l ∈ c, l ≠ 0) :
+    cnfTrue σ (c.map (fun l => [-l]) ++ f) = true ↔ (∀ l ∈ c, litTrue σ l = false) ∧ cnfTrue σ f = true := by
+  rw [cnfTrue_iff, cnfTrue_iff]
+  constructor
+  · intro h
+    refine ⟨fun l hl => ?_, fun d hd => h d (List.mem_append_right _ hd)⟩
+    obtain ⟨k, hk, hkt⟩ := h [-l] (List.mem_append_left _ (List.mem_map.2 ⟨l, hl, rfl⟩))
+    have : k = -l := by simpa using hk
+    subst this
+    rw [litTrue_neg (hc l hl)] at hkt
+    simpa using hkt
+  · rintro ⟨h1, h2⟩ d hd
+    rcases List.mem_append.1 hd with hd | hd
+    · obtain ⟨l, hl, rfl⟩ := List.mem_map.1 hd
+      refine ⟨-l, by simp, ?_⟩
+      rw [litTrue_neg (hc l hl), h1 l hl]; rfl
+    · exact h2 d hd
+
+theorem entailsB_correct {f : Cnf} {c : Clause} (hf : WF f) (hc : ∀ l ∈ c, l ≠ 0) :
+    entailsB f c = true ↔ Entails f c := by
+  have hwf : WF (c.map (fun l => [-l]) ++ f) := by
+    intro d hd l hl
+    rcases List.mem_append.1 hd with hd | hd
+    · obtain ⟨k, hk, rfl⟩ := List.mem_map.1 hd
+      have : l = -k := by simpa using hl
+      have := hc k hk
+      omega
+    · exact hf d hd l hl
+  unfold entailsB Entails
+  rw [Bool.not_eq_true', ← Bool.not_eq_true, solve_correct _ hwf]
+  constructor
+  · intro h σ hσ
+    apply Classical.byContradiction
+    intro hn
+    apply h
+    refine ⟨σ, (cnfTrue_negUnits hc).2 ⟨fun l hl => ?_, hσ⟩⟩
+    cases hb : litTrue σ l with
+    | false => rfl
+    | true => exact absurd (clauseTrue_iff.2 ⟨l, hl, hb⟩) hn
+  · rintro h ⟨σ, hσ⟩
+    obtain ⟨h1, h2⟩ := (cnfTrue_negUnits hc).1 hσ
+    obtain ⟨l, hl, hlt⟩ := clauseTrue_iff.1 (h σ h2)
+    rw [h1 l hl] at hlt; cases hlt
+
 /-! ### checkers -/
 
 theorem lookup_none_of_not_mem {m : AList} {v : Nat} (h : v ∉ m.map Prod.fst) : m.lookup v = none := by
